@@ -18,7 +18,7 @@ fn main() {
     )
     .assume("batches are built through WriteBatch (put / del), so the smallest batch is one tombstone with an empty key (8 bytes) and the largest is 1 MiB (WriteBatch refuses to grow beyond BLOCK_SIZE; log::MAX_BATCH_SIZE = 1 MiB - 2*HEADER_MAX_SIZE and sst::MAX_BATCH_LEN are smaller and are exercised as boundary sizes); logs stay far below the 1 GiB table limit; LogOptions has no documented ranges, every usize is taken as legal for the buffer sizes")
     .assume("failure path: after a failed write or sync a builder may refuse all further work or carry on; which error it returns is not prescribed. What it must not do is acknowledge a batch that is not durable and readable. A successful data sync is taken to cover every byte written before it was called, also bytes whose earlier sync failed (the stricter reading - pages dropped by a failed fsync are gone - is not applied)")
-    .assume("suspected finding C12-B (reported, not yet triaged): no builder stops writing after a failed write, so a later append can be framed behind torn bytes and acknowledged although no reader reaches it (LogBuilder has no poisoned state, ConcurrentLogBuilder::poison is never read); cases in which a write call succeeded after a failed one do not judge what was acknowledged after the failure (counted as C12-B exclusions). Suspected finding C12-C: LogBuilder::append adds the batch's setsum before _append can refuse the batch by rollover_size, so seal() reports a setsum that includes refused batches; with a refused append the seal setsum may be the log's sum plus exactly the refused batches (counted as C12-C exclusions)")
+    .assume("findings C12-B (no builder stopped writing after a failed write, so a later append was framed behind torn bytes and acknowledged; repaired in /repo by 74f18ab: LogBuilder refuses all work after a failed write or flush) and C12-C (LogBuilder::append added the batch's setsum before _append could refuse the batch by rollover_size; repaired by b0958d0) are regressions/C12/C12-B-*.json and C12-C-*.json; nothing is excluded: after a failed write nothing may be acknowledged unless it is readable and durable, and seal()'s setsum equals the sum of the log's batches also after a refused append")
     .assume("a cut is acceptable when the reader returns the complete batches before it and then either ends or reports an error; which of the two is not prescribed")
     .assume("durability is judged on the intercepted libc calls: bytes are durable when an fdatasync/fsync on the log's descriptor that started after their write returned has completed with success (tmpfs itself persists nothing)")
     .assume("the anchors' description of the concurrent builder (batches merged by the head thread, one write, then one fdatasync covering every waiter) is read as part of the property only for forced pile-ups, where every waiter is provably enqueued before the head finishes")
